@@ -24,6 +24,11 @@ impl C04 {
             let emb: Vec<String> = embed_contexts(l, &corpus).into_iter().enumerate().filter(|(i, _)| i % 5 == 3 || i % 5 == 4).map(|(_, t)| t).collect();
             sets.push(TitleSet { name: "corpus-words-embedded(x w y, f w)".into(), l, titles: Titles::List(emb), nctx: 1, block: 60 });
             sets.push(TitleSet { name: "long words 19..36 letters".into(), l, titles: Titles::List(long_word_titles(l).into_iter().step_by(4).collect()), nctx: 1, block: 1 });
+            // every letter of the language's accent inventory (upper- and lower-case rows) inside 5-letter words
+            for (from, _) in crate::refs::frozen_reduce(l) {
+                let a = from.chars().next().unwrap();
+                sets.push(TitleSet { name: format!("accent U+{:04X} words5", a as u32), l, titles: Titles::Chars { fam: vec![a, s.c, s.c2], lo: 5, hi: 5 }, nctx: 1, block: 30 });
+            }
             let hi = tier.pick(5, 6);
             sets.push(TitleSet { name: format!("F6-words5..{}", hi), l, titles: Titles::Chars { fam: fam6(l), lo: 5, hi }, nctx: 1, block: 60 });
             let hi2 = tier.pick(5, 6);
